@@ -205,7 +205,7 @@ func checkC20(p *core.Program, r *core.Report) {
 			// report each write site that holds no lock at all, or the pair
 			seenFn := map[string]bool{}
 			for _, w := range ws {
-				fnn := p.FnName(w.fn)
+				fnn := p.FnName(opRoot(p, w.fn))
 				if seenFn[fnn] {
 					continue
 				}
@@ -232,7 +232,7 @@ func checkC20(p *core.Program, r *core.Report) {
 			}
 			if !held {
 				okAll = false
-				fnn := p.FnName(rd.fn)
+				fnn := p.FnName(opRoot(p, rd.fn))
 				if seenFn[fnn] {
 					continue
 				}
@@ -386,6 +386,63 @@ func checkC20(p *core.Program, r *core.Report) {
 		}
 		if nbad == 0 {
 			r.OK(R5, "by-value struct loads", "", fmt.Sprintf("%d struct loads examined, none of a lock-bearing type", nload))
+		}
+	}
+	// ---- R7: the hand-over that the confinement table relies on
+	const R7 = "C20.R7 published-before-the-pumps-start"
+	r.Rule(R7, "the fields of the websocket connection that are confined by hand-over (dataProcessing, the two channels) are stored before the go statements that start the pumps, in program order of InitDataProcessing / run: a pump started first reads them concurrently with the store")
+	if wa := findWS(p, r, R7); wa != nil {
+		confined := map[string]bool{"dataProcessing": true, "shipWriteChannel": true, "closeChannel": true}
+		// go statements starting a pump, and the functions (transitively) containing them
+		var spawns []ssa.Instruction
+		for _, fn := range wa.fns {
+			core.EachInstr(fn, func(in ssa.Instruction) {
+				if g, ok := in.(*ssa.Go); ok {
+					if t := g.Call.StaticCallee(); t != nil && core.NamedOf(recvType(t)) == wa.typ {
+						spawns = append(spawns, in)
+					}
+				}
+			})
+		}
+		spawnsPumps := core.NewMay(p, false, func(in ssa.Instruction) bool {
+			for _, s := range spawns {
+				if s == in {
+					return true
+				}
+			}
+			return false
+		})
+		nst := 0
+		for _, fn := range wa.fns {
+			fn := fn
+			core.EachInstr(fn, func(in ssa.Instruction) {
+				f, b, _ := core.StoredField(in)
+				if f == nil || !confined[f.Name()] || core.NamedOf(b.Type()) != wa.typ {
+					return
+				}
+				if _, fresh := core.Canon(b).(*ssa.Alloc); fresh {
+					return
+				}
+				nst++
+				key := "ws.WebsocketConnection." + f.Name() + " stored before the pumps start (" + p.FnName(fn) + ")"
+				// no pump may have been started on any path reaching this store
+				early := core.PathSearch(fn, nil, func(y ssa.Instruction) bool { return y == in }, nil, nil) != nil &&
+					core.PathSearch(fn, nil, func(y ssa.Instruction) bool {
+						switch y.(type) {
+						case *ssa.Go, *ssa.Call:
+							return y != in && spawnsPumps.Instr(y) && core.PathSearch(fn, y, func(z ssa.Instruction) bool { return z == in }, nil, nil) != nil
+						}
+						return false
+					}, func(y ssa.Instruction) bool { return y == in }, nil) != nil
+				if early {
+					r.Fail(R7, key, p.Pos(in.Pos()), "a pump goroutine is started before this field is stored: the pump's first use of it (e.g. delivering the peer's first message) races with the store, or dereferences nil")
+				} else {
+					r.OK(R7, key, p.Pos(in.Pos()), "no pump runs yet when the field is stored")
+				}
+			})
+		}
+		if nst == 0 {
+			r.Fail(R7, "confined fields of the websocket connection", "", "the stores of dataProcessing / the channels were not found")
 		}
 	}
 	// ---- R6: the socket's write methods are serialised (shared with C12.R5)
